@@ -511,7 +511,7 @@ K32 = ("bool", "int32", "sint32", "sfixed32", "uint32", "fixed32", "float", "enu
 
 def check_C13(ctx):
     return run_leaf_property(ctx, dict(
-        theorems=["C13_writer", "C13_nest_message", "C13_nest_always", "C13_nest_present", "C13_reader_other", "C13_reader_wrong_wire", "C13_reader_value", "C13_reader_next"],
+        theorems=["C13_writer", "C13_nest_message", "C13_nest_always", "C13_nest_present", "C13_reader_other", "C13_reader_wrong_wire", "C13_reader_value", "C13_reader_next", "C13_reader_any_input", "C13_repeated_reader_iteration", "C13_packed_is_reference_unpack"],
         suites=lambda c: [("writers", ["writers", c.seed] + (["thorough"] if c.tier == "thorough" else [])), ("readers", ["readers", c.seed])],
         rule="exhaustive grids: 60 typed writers x boundary value alphabet x field-number alphabet (1..2^29-1 boundaries) x dirty/tight buffers, lists across packed length classes; "
              "30 typed readers x pending{same,other} x wire types 0-7 x payload alphabet (valid, empty, truncated, overlong, packed); reference = protobuf-go protowire; "
@@ -614,7 +614,7 @@ def check_C10(ctx):
 
 def check_C04(ctx):
     return run_message_property(ctx, dict(
-        theorems=["C04_varint_in_bounds", "C04_bytes_in_bounds", "C04_cursor_progress", "C04_skip_progress", "C04_reader_progress"],
+        theorems=["C04_varint_in_bounds", "C04_bytes_in_bounds", "C04_cursor_progress", "C04_skip_progress", "C04_reader_progress", "C04_skipper_in_bounds", "C04_statement_progress", "C04_total_on_arbitrary_bytes"],
         suites=lambda c: [("decb", ["decb", c.seed, _n(c, 3000, 100000)])] +
                          (fresh_suites(c, [("deep", ["deep", c.seed]), ("decb", ["decb", c.seed + 5, _n(c, 1500, 30000)])]) or [("deep", ["deep", c.seed])]),
         prop={"dec": lambda r: r["ist"] != "PANIC" and "input-modified" not in r["flags"] and "slow" not in r["flags"]},
